@@ -57,6 +57,7 @@ fn main() {
             }
         },
         p => {
+            util::set_run(&opts);
             util::start_watchdog(&opts);
             if !monitors::run(p, &opts) {
                 eprintln!("unknown monitor {p}");
